@@ -287,7 +287,7 @@ func checkSocksDeadlines(p *Prog, r *Report, scan *ssa.Function) {
 				r.Check(once, "C09.R3", key+"/once", pos, "the deadline wrapper performs one raw "+op+" per call (each call is bounded by one data timeout)", whyOnce)
 				// every path to the call sets the matching deadline from now+timeout and tests the error
 				ok2, why := true, ""
-				for _, s := range Paths(fn).Segs {
+				for _, s := range PathsInl(fn).Segs {
 					if !s.Has(c) {
 						continue
 					}
@@ -629,8 +629,10 @@ func checkSocksMessages(p *Prog, r *Report, scan *ssa.Function) {
 						continue
 					}
 					if bi, ok := c.Call.Value.(*ssa.Builtin); ok && bi.Name() == "append" {
-						if elems, ok := VariadicElems(c.Call.Args[1]); ok && len(elems) == 1 {
-							order = append(order, sx(elems[0], 0))
+						if elems, ok := VariadicElems(c.Call.Args[1]); ok && len(elems) >= 1 {
+							for _, el := range elems {
+								order = append(order, sx(el, 0))
+							}
 						} else {
 							order = append(order, sx(c.Call.Args[1], 0)+"...")
 						}
